@@ -54,6 +54,9 @@ def replay():
 '''
 
 
+RTOL_GIVEN, ATOL_GIVEN = 3e-5, 7e-9      # distinct from the defaults and from each other
+
+
 def run(chk):
     from ekobox import utils
     from eko.io.items import Operator
@@ -78,8 +81,9 @@ def run(chk):
             self._match = match
             self.closed = False
             self.copied_to = None
-        def approx(self, ep, rtol=None, atol=None):
+        def approx(self, ep, rtol=1e-6, atol=1e-10):          # the signature of EKO.approx (positional order included)
             self.approx_arg = ep
+            self.approx_tol = (rtol, atol)
             return self._match
         def deepcopy(self, path):
             self.copied_to = path
@@ -115,13 +119,15 @@ def run(chk):
                 saved = utils.EKO
                 utils.EKO = type("E", (), {"edit": staticmethod(lambda p: Ghost.copies[p])})
                 try:
-                    utils.ekos_product(ini, fin, path=path)
+                    utils.ekos_product(ini, fin, rtol=RTOL_GIVEN, atol=ATOL_GIVEN, path=path)
                 except Exception as e:
                     chk.raised(f"{tag}.no_exception", e, fn=fn, replay=rp)
                     continue
                 finally:
                     utils.EKO = saved
                 res = ini if path is None else Ghost.copies[path]
+                chk.ground(f"{tag}.tolerances_forwarded", getattr(ini, "approx_tol", None) == (RTOL_GIVEN, ATOL_GIVEN), fn=fn, replay=rp, detail=f"approx received (rtol, atol) = {getattr(ini, 'approx_tol', None)}",
+                           goal="the junction is looked up with the relative and the absolute tolerance the caller gave, each in its own role")
                 chk.eq(f"{tag}.matched_on_init_of_second", ini.approx_arg[0], mu1 * mu1, fn=fn, goal="the stored point is looked up at (mu1^2, nf1) = the initial point of the second EKO", replay=rp)
                 chk.ground(f"{tag}.matched_nf", ini.approx_arg[1] == 5, fn=fn, goal="... with the initial nf of the second EKO", replay=rp)
                 for q, (B, EB) in targets.items():
